@@ -1,4 +1,6 @@
 import Usid.Proofs.SliceTo
+import Usid.Proofs.SliceIdx
+import Usid.Properties.C07
 /-! C11 — slice-to-dataset preserves every selected element with its coordinates.
     Structural theorems about `sliceToDataset` and the coordinate theorems for a sliced regular-grid side. -/
 namespace Usid.C11
@@ -116,6 +118,118 @@ theorem sliced_side_coordinates (sz : Nat → Nat) (rate : List Nat) (k : Nat) (
       w.values[j]? = some rv ∧
       ∀ i, i < rows.length → rv[i]? = some (((pointValues sz rate k V).getD (rows.getD i 0) []).getD d 0) :=
   written_side_values sz rate k V sels labels units hperm hk hsel d hd
+
+/-- a non-empty selection of in-range indices keeps at least one index -/
+theorem subSize_pos (sz : Nat → Nat) (sels : List (List Nat)) (d : Nat) (x : Nat)
+    (hx : x ∈ sels.getD d []) (hlt : x < sz d) : 0 < subSize sz sels d := by
+  have : x ∈ L sz (selPred sels) d := by
+    unfold L selPred
+    exact List.mem_filter.mpr ⟨List.mem_range.mpr hlt, by simpa using hx⟩
+  exact List.length_pos_iff.mpr (List.ne_nil_of_mem this)
+
+/-- **End to end, position side.**  Whenever `slice_to_dataset` is accepted on a dataset whose position side is
+    a regular grid (any sizes >= 1, any storage permutation, distinct labels): there are per-dimension
+    selections `ps` - the whole range, or the accepted expansion of the dimension's selector - such that the
+    returned rows are the selected rows of the grid, every dimension keeps at least one index (so the
+    hypothesis of the coordinate theorems is discharged), and a sliced position side is exactly
+    `write_ind_val_dsets` of the multi-valued dimensions in rate order (fastest first) with their selected
+    reference values (whose coordinates `sliced_side_coordinates` describes); an unsliced one is reused. -/
+theorem position_side_end_to_end (main : NDArr α) (specT : Side) (psz ssz : List Nat) (sd : SliceDict) (r : Result α)
+    (rate : List Nat) (V : Nat → List Int) (labels units : List String)
+    (hperm : rate.Perm (List.range psz.length)) (hkpos : 0 < psz.length) (hsz : ∀ s ∈ psz, 1 ≤ s)
+    (hl : labels.length = psz.length) (hnd : labels.Nodup)
+    (h : sliceToDataset main ⟨labels, units, pointMatrix (fun d => psz.getD d 0) rate psz.length,
+        pointValues (fun d => psz.getD d 0) rate psz.length V⟩ specT psz ssz sd = .ok r) :
+    ∃ ps cols, ps.length = psz.length ∧
+      posSpecSlices (pointMatrix (fun d => psz.getD d 0) rate psz.length) specT.inds labels specT.labels psz ssz sd =
+        .ok (selectedRows (pointMatrix (fun d => psz.getD d 0) rate psz.length) ps, cols) ∧
+      (∀ d ∈ rate, 0 < subSize (fun d => psz.getD d 0) ps d) ∧
+      r.pos = (if sd.any (fun kv => labels.contains kv.1) then
+          NewSide.written (writeIndVal
+            (if (keptRate (fun d => psz.getD d 0) rate ps).isEmpty then [{ name := "arb.", units := "a. u.", values := [4] }]
+             else (keptRate (fun d => psz.getD d 0) rate ps).map (fun d =>
+               { name := labels.getD d "", units := units.getD d "",
+                 values := Wsel (fun d => psz.getD d 0) (selPred ps) V d })) false)
+        else .reused) := by
+  obtain ⟨rows, cols, pd, spd, hrc, hpd, _, hpos, _, _⟩ := sides main _ specT psz ssz sd r h
+  obtain ⟨ps, ss, hrows, _, hpl, _, hpsel, _⟩ := Usid.C07.posSpecSlices_selected _ _ _ _ _ _ _ rows cols hrc
+  simp only at hpl hpsel hrows hpd hpos hrc
+  have hpl' : ps.length = psz.length := by rw [hpl, hl]
+  have hsel : ∀ d ∈ rate, 0 < subSize (fun d => psz.getD d 0) ps d := by
+    intro d hd
+    have hdk : d < psz.length := List.mem_range.mp (hperm.subset hd)
+    have hspos : 0 < psz.getD d 0 := by
+      rw [List.getD_eq_getElem?_getD, List.getElem?_eq_getElem hdk]; exact hsz _ (List.getElem_mem hdk)
+    have hd1 : d < labels.length := by rw [hl]; exact hdk
+    have hd2 : d < ps.length := by rw [hpl']; exact hdk
+    have hg : ps.getD d [] = ps[d] := by simp [List.getD_eq_getElem?_getD, List.getElem?_eq_getElem hd2]
+    have := hpsel d hd1 hd2
+    split at this
+    · -- not mentioned: the whole range
+      apply subSize_pos _ ps d 0
+      · rw [hg, this]; exact List.mem_range.mpr hspos
+      · exact hspos
+    · rename_i s hlk
+      obtain ⟨hne, hlt⟩ := expandSel_ok _ s _ this
+      obtain ⟨x, hx⟩ := List.exists_mem_of_ne_nil _ hne
+      exact subSize_pos _ ps d x (by rw [hg]; exact hx) (hlt x hx)
+  have hdims := sliced_side_dims (fun d => psz.getD d 0) rate psz.length V ps labels units hperm hpl' hkpos hl hnd hsel
+  rw [← hrows, hpd] at hdims
+  injection hdims with hdims
+  refine ⟨ps, cols, hpl', by rw [← hrows]; exact hrc, hsel, ?_⟩
+  rw [hpos, hdims]
+
+/-- **End to end, spectroscopic side** (the model keeps the spectroscopic matrices transposed, one row per
+    spectroscopic point, so the statement is the mirror image of the position one).  Whenever `slice_to_dataset` is accepted on a dataset whose position side is
+    a regular grid (any sizes >= 1, any storage permutation, distinct labels): there are per-dimension
+    selections `ps` - the whole range, or the accepted expansion of the dimension's selector - such that the
+    returned rows are the selected rows of the grid, every dimension keeps at least one index (so the
+    hypothesis of the coordinate theorems is discharged), and a sliced position side is exactly
+    `write_ind_val_dsets` of the multi-valued dimensions in rate order (fastest first) with their selected
+    reference values (whose coordinates `sliced_side_coordinates` describes); an unsliced one is reused. -/
+theorem spectroscopic_side_end_to_end (main : NDArr α) (pos : Side) (psz ssz : List Nat) (sd : SliceDict) (r : Result α)
+    (rate : List Nat) (V : Nat → List Int) (labels units : List String)
+    (hperm : rate.Perm (List.range ssz.length)) (hkpos : 0 < ssz.length) (hsz : ∀ s ∈ ssz, 1 ≤ s)
+    (hl : labels.length = ssz.length) (hnd : labels.Nodup)
+    (h : sliceToDataset main pos ⟨labels, units, pointMatrix (fun d => ssz.getD d 0) rate ssz.length,
+        pointValues (fun d => ssz.getD d 0) rate ssz.length V⟩ psz ssz sd = .ok r) :
+    ∃ ss rows, ss.length = ssz.length ∧
+      posSpecSlices pos.inds (pointMatrix (fun d => ssz.getD d 0) rate ssz.length) pos.labels labels psz ssz sd =
+        .ok (rows, selectedRows (pointMatrix (fun d => ssz.getD d 0) rate ssz.length) ss) ∧
+      (∀ d ∈ rate, 0 < subSize (fun d => ssz.getD d 0) ss d) ∧
+      r.spec = (if sd.any (fun kv => labels.contains kv.1) then
+          NewSide.written (writeIndVal
+            (if (keptRate (fun d => ssz.getD d 0) rate ss).isEmpty then [{ name := "arb.", units := "a. u.", values := [4] }]
+             else (keptRate (fun d => ssz.getD d 0) rate ss).map (fun d =>
+               { name := labels.getD d "", units := units.getD d "",
+                 values := Wsel (fun d => ssz.getD d 0) (selPred ss) V d })) false)
+        else .reused) := by
+  obtain ⟨rows, cols, pd, spd, hrc, _, hspd, _, hspec, _⟩ := sides main pos _ psz ssz sd r h
+  obtain ⟨ps, ss, _, hcols, _, hsl, _, hssel⟩ := Usid.C07.posSpecSlices_selected _ _ _ _ _ _ _ rows cols hrc
+  simp only at hsl hssel hcols hspd hspec hrc
+  have hsl' : ss.length = ssz.length := by rw [hsl, hl]
+  have hsel : ∀ d ∈ rate, 0 < subSize (fun d => ssz.getD d 0) ss d := by
+    intro d hd
+    have hdk : d < ssz.length := List.mem_range.mp (hperm.subset hd)
+    have hspos : 0 < ssz.getD d 0 := by
+      rw [List.getD_eq_getElem?_getD, List.getElem?_eq_getElem hdk]; exact hsz _ (List.getElem_mem hdk)
+    have hd1 : d < labels.length := by rw [hl]; exact hdk
+    have hd2 : d < ss.length := by rw [hsl']; exact hdk
+    have hg : ss.getD d [] = ss[d] := by simp [List.getD_eq_getElem?_getD, List.getElem?_eq_getElem hd2]
+    have := hssel d hd1 hd2
+    split at this
+    · apply subSize_pos _ ss d 0
+      · rw [hg, this]; exact List.mem_range.mpr hspos
+      · exact hspos
+    · rename_i s hlk
+      obtain ⟨hne, hlt⟩ := expandSel_ok _ s _ this
+      obtain ⟨x, hx⟩ := List.exists_mem_of_ne_nil _ hne
+      exact subSize_pos _ ss d x (by rw [hg]; exact hx) (hlt x hx)
+  have hdims := sliced_side_dims (fun d => ssz.getD d 0) rate ssz.length V ss labels units hperm hsl' hkpos hl hnd hsel
+  rw [← hcols, hspd] at hdims
+  injection hdims with hdims
+  refine ⟨ss, rows, hsl', by rw [← hcols]; exact hrc, hsel, ?_⟩
+  rw [hspec, hdims]
 
 -- non-vacuity: a 3 x 2 grid stored with the second dimension fastest, selecting indices {0, 2} of the first
 example : selectedRows (pointMatrix (fun d => [3, 2].getD d 1) [1, 0] 2) [[0, 2], [0, 1]] = [0, 1, 4, 5] ∧
